@@ -1754,3 +1754,13 @@ package compose
 //@   after call f.Type: ghost declared = result
 //@   ensures[declared_field_type_reported] @C15 err == nil ==> takenType == declared
 //@   ensures[no_value_on_error] @C15 err != nil ==> takenType == nil
+
+//@ func validateFieldMapping$6
+//@   props C04 C15
+//@   skip pre safe
+//@   note the run-time field checker is installed in front of the field-mapping converter, whose stream form requires a stream of map[string]any chunks (its type assertion panics otherwise): the stream form of the checker must keep that chunk type, as its value form does
+//@   ghost packedAsMaps bool = false
+//@   ghost inputNotMaps bool = false
+//@   after call unpackStreamReader[map[string]any]: ghost inputNotMaps = !result1
+//@   at call packStreamReader: ghost packedAsMaps = typename(arg0) == "*schema.StreamReader[map[string]any]"
+//@   ensures[stream_form_keeps_the_chunk_type] @C04,C15 packedAsMaps || inputNotMaps
